@@ -208,28 +208,29 @@ def runRequest (s : State) (route : String) (i : Ident) (client : Scope) :
     Option (State × MsgReply × Bytes × Scope × Bool) :=
   let (cs, hasECS) := clientScopes s client
   let W := world s
-  let queued := fun (p : Bytes) (o : MsgReply) =>
-    match o with
-    | MsgReply.answer (e :: _) =>
+  -- `handleCacheHit` claims and queues the refresh right after verifying the hit, before any
+  -- chase: whatever the reply turns out to be, a due first entry of the decoded body is queued
+  let queued := fun (p : Bytes) (viaDecoded : Bool) =>
+    match viaDecoded, serveMsg H W p i.qtype i.qclass i.cd cs hasECS with
+    | true, Outcome.hit (e :: _) =>
       if due s e then
         { s with claimed := e.id :: s.claimed,
                  queue := s.queue ++ [((CacheKey.mk p i.qtype i.qclass i.cd none).hash H, e,
                                        ({ name := p, qtype := i.qtype, qclass := i.qclass, cd := i.cd, hasECS := hasECS } : Req))] }
       else s
-    | _ => s
+    | _, _ => s
   match route, i.name with
   | "wire", Name.wire wn =>
     match present wn with
     | some p =>
-      let o := if hasECS then serveMsgFull H W p i.qtype i.qclass i.cd cs hasECS
-               else serveWireFull H W wn i.qtype i.qclass i.cd (due s)
-      some (queued p o, o, p, cs, hasECS)
+      if hasECS then some (queued p true, serveMsgFull H W p i.qtype i.qclass i.cd cs hasECS, p, cs, hasECS)
+      else
+        let core := serveWireCore H W wn i.qtype i.qclass i.cd (due s)
+        some (queued p core.isNone, serveWireFull H W wn i.qtype i.qclass i.cd (due s), p, cs, hasECS)
     | none => none
   | "msg", n =>
     match n.presentation with
-    | some p =>
-      let o := serveMsgFull H W p i.qtype i.qclass i.cd cs hasECS
-      some (queued p o, o, p, cs, hasECS)
+    | some p => some (queued p true, serveMsgFull H W p i.qtype i.qclass i.cd cs hasECS, p, cs, hasECS)
     | none => none
   | "store", n =>
     match n.presentation with
